@@ -214,6 +214,9 @@ struct Lifter<'a> {
     tolerant: bool,
     /// env depth at the entry of every enclosing closure that may run more than once (map / mapv / from_shape_fn)
     closure_base: Vec<usize>,
+    /// `const_values`: module constants of the source file (name -> initialiser)
+    consts: HashMap<String, syn::Expr>,
+    const_stack: Vec<String>,
     /// `named_sums` flag of the directive: `.sum()` of a compound array expression gets a named summand function
     named_sums: bool,
     /// variables of an enclosing scope that the closure being lifted mutates (reads of them are not liftable)
@@ -457,8 +460,19 @@ impl<'a> Lifter<'a> {
                         return Ok(v(s, &t));
                     }
                 }
-                // constants
+                // a unit-carrying constant of the quantity crate (`quantity::RGAS`): an uninterpreted real
+                if p.path.segments.len() == 2 && p.path.segments[0].ident == "quantity" {
+                    let n = p.path.segments[1].ident.to_string();
+                    let decl = format!("pub uninterp spec fn K_QUANTITY_{n}() -> real;");
+                    if !self.havocs.contains(&decl) {
+                        self.havocs.push(decl);
+                    }
+                    self.note("L21", e.span(), &format!("`quantity::{n}` lifted to an uninterpreted real constant"));
+                    return Ok(v(format!("K_QUANTITY_{n}()"), "real"));
+                }
+                // constants (a module constant of the same name takes precedence when `const_values` is set)
                 match s.as_str() {
+                    _ if self.consts.contains_key(&s) => {}
                     "PI" | "std::f64::consts::PI" => return Ok(v("PI()", "real")),
                     "FRAC_PI_3" => return Ok(v("(PI() / 3real)", "real")),
                     "FRAC_PI_6" => return Ok(v("(PI() / 6real)", "real")),
@@ -489,6 +503,30 @@ impl<'a> Lifter<'a> {
                 }
                 // L21: a module constant (SCREAMING_CASE, single segment) is an uninterpreted real constant
                 if p.path.segments.len() == 1 && s.len() > 1 && s.chars().all(|c| c.is_ascii_uppercase() || c.is_ascii_digit() || c == '_') {
+                    // `const_values` (directive flag): a module constant whose initialiser is made of literals, other
+                    // constants and arithmetic keeps its value
+                    if let Some(init) = self.consts.get(&s).cloned() {
+                        if !self.const_stack.contains(&s) {
+                            self.const_stack.push(s.clone());
+                            let saved_env = std::mem::replace(&mut self.env, vec![HashMap::new()]);
+                            let val = self.expr(&init);
+                            self.env = saved_env;
+                            self.const_stack.pop();
+                            if let Ok(val) = val {
+                                if val.ty == "real" {
+                                    // a literal value is hidden behind `reveal` (big rationals make non-linear queries
+                                    // explode); relations between constants (`T0_2 = T0 * T0`) stay visible
+                                    let is_lit = Self::only_literals(&init);
+                                    let decl = format!("{}pub open spec fn K_{s}() -> real {{ {} }}", if is_lit { "#[verifier::opaque] " } else { "" }, val.text);
+                                    if !self.havocs.contains(&decl) {
+                                        self.havocs.push(decl);
+                                    }
+                                    self.note("L21", e.span(), &format!("module constant `{s}` lifted with its value"));
+                                    return Ok(v(format!("K_{s}()"), "real"));
+                                }
+                            }
+                        }
+                    }
                     let decl = format!("pub uninterp spec fn K_{s}() -> real;");
                     if !self.havocs.contains(&decl) {
                         self.havocs.push(decl);
@@ -1082,6 +1120,17 @@ impl<'a> Lifter<'a> {
         }
         walk(e.to_token_stream(), &mut out);
         out
+    }
+    /// an expression made of numeric literals and arithmetic only
+    fn only_literals(e: &syn::Expr) -> bool {
+        match e {
+            syn::Expr::Lit(_) => true,
+            syn::Expr::Paren(p) => Self::only_literals(&p.expr),
+            syn::Expr::Group(g) => Self::only_literals(&g.expr),
+            syn::Expr::Unary(u) => Self::only_literals(&u.expr),
+            syn::Expr::Binary(b) => Self::only_literals(&b.left) && Self::only_literals(&b.right),
+            _ => false,
+        }
     }
     /// is this statement-position `if` / `match` free of effects other than panicking (every branch is empty, `()` or a
     /// panic-class macro)?
@@ -2134,6 +2183,23 @@ impl<'a> Lifter<'a> {
                 };
                 if n.ty == "int" {
                     let (pn, body) = self.closure1(&c.args[1], "int")?;
+                    if self.observe.is_some() && body.text.contains("let cap__ =") {
+                        // L17e: an observable captured inside the element closure - lifted once for an arbitrary index
+                        let Some(ty) = self.loopvars.get(&pn).cloned() else {
+                            return Err(format!("construct outside rule list (lift): observable inside a from_shape_fn closure over `{pn}` (declare loopvars={pn}:int)"));
+                        };
+                        let hname = format!("{}__loopvar_{pn}", self.fn_name);
+                        let decl = format!(
+                            "pub uninterp spec fn {hname}({}) -> {ty};",
+                            self.params.iter().map(|(n, t)| format!("{n}: {t}")).collect::<Vec<_>>().join(", ")
+                        );
+                        if !self.havocs.contains(&decl) {
+                            self.havocs.push(decl);
+                        }
+                        let plist: Vec<String> = self.params.iter().map(|(n, _)| n.clone()).collect();
+                        self.note("L17e", whole.span(), "observable captured inside a from_shape_fn closure (arbitrary index)");
+                        return Ok(v(format!("{{ let {pn} = {hname}({}); {} }}", plist.join(", "), body.text), &body.ty));
+                    }
                     self.note("L8", whole.span(), "from_shape_fn lifted to an index function");
                     let at = if body.ty == "Rec" { "OArr" } else { "RArr" };
                     return Ok(v(format!("{at} {{ len: {}, at: |{pn}: int| {} }}", n.text, body.text), at));
@@ -2256,6 +2322,61 @@ impl<'a> Lifter<'a> {
 
     fn method(&mut self, m: &syn::ExprMethodCall, whole: &syn::Expr) -> R<Val> {
         let name = m.method.to_string();
+        // a.iter().zip(&b).map(|(x, y)| e).sum()  - the sum over the common index range of two arrays
+        if name == "sum" && m.args.is_empty() {
+            if let syn::Expr::MethodCall(mm) = &*m.receiver {
+                if mm.method == "map" && mm.args.len() == 1 {
+                    if let syn::Expr::MethodCall(z) = &*mm.receiver {
+                        if z.method == "zip" && z.args.len() == 1 {
+                            if let syn::Expr::MethodCall(it) = &*z.receiver {
+                                if (it.method == "iter" || it.method == "into_iter") && it.args.is_empty() {
+                                    let a = self.expr(&it.receiver)?;
+                                    let mut bexpr = &z.args[0];
+                                    while let syn::Expr::Reference(r) = bexpr {
+                                        bexpr = &r.expr;
+                                    }
+                                    if let syn::Expr::MethodCall(bi) = bexpr {
+                                        if bi.method == "iter" && bi.args.is_empty() {
+                                            bexpr = &bi.receiver;
+                                        }
+                                    }
+                                    let b = self.expr(bexpr)?;
+                                    let elem = |t: &str| match t { "RArr" => Some("real"), "OArr" => Some("Rec"), _ => None };
+                                    if let (Some(ta), Some(tb), syn::Expr::Closure(cl)) = (elem(&a.ty), elem(&b.ty), &mm.args[0]) {
+                                        if let Some(syn::Pat::Tuple(tp)) = cl.inputs.first() {
+                                            if tp.elems.len() == 2 && cl.inputs.len() == 1 {
+                                                let nm = |p: &syn::Pat| match p {
+                                                    syn::Pat::Ident(i) => Some(i.ident.to_string()),
+                                                    syn::Pat::Reference(r) => match &*r.pat { syn::Pat::Ident(i) => Some(i.ident.to_string()), _ => None },
+                                                    _ => None,
+                                                };
+                                                if let (Some(xn), Some(yn)) = (nm(&tp.elems[0]), nm(&tp.elems[1])) {
+                                                    self.closure_base.push(self.env.len());
+                                                    self.env.push(HashMap::new());
+                                                    self.bind(&xn, ta);
+                                                    self.bind(&yn, tb);
+                                                    let body = self.scoped(&cl.body);
+                                                    self.env.pop();
+                                                    self.closure_base.pop();
+                                                    let body = body?;
+                                                    if body.ty == "real" {
+                                                        self.note("L8", whole.span(), "zip-map-sum lifted to a recursive sum over the common index range");
+                                                        return Ok(v(
+                                                            format!("rsum(imin({0}.len, {1}.len), |k__: int| {{ let {xn} = ({0}.at)(k__); {{ let {yn} = ({1}.at)(k__); {2} }} }})", a.text, b.text, body.text),
+                                                            "real",
+                                                        ));
+                                                    }
+                                                }
+                                            }
+                                        }
+                                    }
+                                }
+                            }
+                        }
+                    }
+                }
+            }
+        }
         // (0..n).map(|i| e).sum()
         if name == "sum" && m.args.is_empty() {
             if let syn::Expr::MethodCall(mm) = &*m.receiver {
@@ -3191,6 +3312,10 @@ pub fn lift_fn(ctx: &mut Ctx, blk: &Block) -> Result<(String, Value), String> {
             tolerant: blk.flag("tolerant") && observe.is_some(),
             closure_base: vec![],
             named_sums: blk.flag("named_sums"),
+            consts: if blk.flag("const_values") {
+                ctx.files[&file].1.items.iter().filter_map(|it| match it { syn::Item::Const(c) => Some((c.ident.to_string(), (*c.expr).clone())), _ => None }).collect()
+            } else { HashMap::new() },
+            const_stack: vec![],
             dirty_captured: vec![],
             loopvars: blk.opt("loopvars").map(|t| t.split(';').filter_map(|kv| kv.split_once(':').map(|(a, b)| (a.trim().to_string(), b.trim().to_string()))).collect()).unwrap_or_default(),
             shared: if blk.flag("share_observed") { outputs.iter().filter_map(|(n, o)| o.clone().map(|o| (o, n.clone()))).collect() } else { HashMap::new() },
@@ -3218,7 +3343,7 @@ pub fn lift_fn(ctx: &mut Ctx, blk: &Block) -> Result<(String, Value), String> {
     // module constants (L21) are declared once per unit
     let mut havocs_unit: Vec<String> = Vec::new();
     for h in &havocs_all {
-        if let Some(rest) = h.strip_prefix("pub uninterp spec fn K_") {
+        if let Some(rest) = h.strip_prefix("pub uninterp spec fn K_").or_else(|| h.strip_prefix("pub open spec fn K_")).or_else(|| h.strip_prefix("#[verifier::opaque] pub open spec fn K_")) {
             let cname = format!("K_{}", rest.split('(').next().unwrap_or(""));
             if ctx.lift.fns.contains_key(&cname) {
                 continue;
